@@ -16,30 +16,31 @@ type unsupported struct {
 }
 
 type Exec struct {
-	vc         *VC
-	pkg        *Pkg
-	info       *types.Info
-	fd         *ast.FuncDecl
-	fnObj      *types.Func
-	ct         *FuncContract
-	entry      *State
-	params     map[string]Value // entry values of params/receiver by name
-	names      map[string]types.Object
-	results    []types.Object
-	rets       []*State
-	loopN      int
-	strLits    map[string]Term
-	noOv       map[string]bool
-	curCase    string
-	extraHavoc []types.Object
-	visited    types.Object
-	rawVars    map[types.Object]bool
-	rangeKey   map[string]Term
-	final      *State
-	entry0     *State
-	autoDec    func(*State) Term
-	paramVals  []Value
-	recvVal    Value
+	vc          *VC
+	pkg         *Pkg
+	info        *types.Info
+	fd          *ast.FuncDecl
+	fnObj       *types.Func
+	ct          *FuncContract
+	entry       *State
+	params      map[string]Value // entry values of params/receiver by name
+	names       map[string]types.Object
+	results     []types.Object
+	rets        []*State
+	loopN       int
+	strLits     map[string]Term
+	noOv        map[string]bool
+	curCase     string
+	extraHavoc  []types.Object
+	visited     types.Object
+	rawVars     map[types.Object]bool
+	rangeKey    map[string]Term
+	final       *State
+	entry0      *State
+	autoDec     func(*State) Term
+	inlineDepth int
+	paramVals   []Value
+	recvVal     Value
 }
 
 func (x *Exec) unsup(pos token.Pos, f string, a ...interface{}) {
@@ -338,6 +339,15 @@ func (x *Exec) unary(st *State, e *ast.UnaryExpr) Value {
 func (x *Exec) checkOverflow(st *State, r Term, ii IntInfo, pos token.Pos, text string) {
 	if x.vc.mode != "int" {
 		return
+	}
+	for n := range x.noOv {
+		// arithmetic on a counter declared `nooverflow` (listed assumption)
+		for _, tk := range tokRe.FindAllString(strings.NewReplacer("+", " ", "-", " ", "*", " ").Replace(text), -1) {
+			if tk == n {
+				st.assume(x.vc.inRange(r, ii))
+				return
+			}
+		}
 	}
 	x.oblige(st, "overflow", x.vc.inRange(r, ii), pos, "no overflow in "+text)
 }
